@@ -159,8 +159,51 @@ func mutationsOf(seed []byte) []edit {
 	var nodes []tlvNode
 	scanTLV(seed, 0, len(seed), 0, -1, &nodes)
 	var eds []edit
-	// sibling/parent/children type sets
+	// (1) type replacements: sibling / parent / child types, unknown critical and non-critical types, wide types
 	for i, nd := range nodes {
+		tset := map[uint64]bool{}
+		for j, o := range nodes {
+			if j == i {
+				continue
+			}
+			if o.parent == nd.parent || j == nd.parent || o.parent == i { // sibling, parent, child
+				tset[o.typ] = true
+			}
+		}
+		for _, t := range []uint64{0, 0xfa, 0xfb, 1000, 1001, 1 << 32, 1<<64 - 1} {
+			tset[t] = true
+		}
+		delete(tset, nd.typ)
+		var ts []uint64
+		for t := range tset {
+			ts = append(ts, t)
+		}
+		sort.Slice(ts, func(a, b int) bool { return ts[a] < ts[b] })
+		origT := seed[nd.tOff:nd.lOff]
+		for _, t := range ts {
+			eds = append(eds, edit{off: nd.tOff, del: len(origT), ins: encVar(t, minWidth(t)), desc: fmt.Sprintf("type@%d %#x->%#x", nd.tOff, nd.typ, t)})
+		}
+		// non-minimal encodings of the same type
+		for _, w := range []int{3, 5, 9} {
+			ins := encVar(nd.typ, w)
+			if string(ins) != string(origT) {
+				eds = append(eds, edit{off: nd.tOff, del: len(origT), ins: ins, desc: fmt.Sprintf("type@%d %#x widened/w%d", nd.tOff, nd.typ, w)})
+			}
+		}
+	}
+	// (2) truncation at every offset
+	for k := 0; k < len(seed); k++ {
+		eds = append(eds, edit{off: k, del: len(seed) - k, desc: fmt.Sprintf("truncate@%d", k)})
+	}
+	// (3) length replacements, smallest replacement values first (huge values last), every node,
+	// every encoding width that can hold the value; includes the nested-length disagreements
+	// (inner = outer, inner = outer+1, inner/outer +-1)
+	type lenEdit struct {
+		v uint64
+		e edit
+	}
+	var les []lenEdit
+	for _, nd := range nodes {
 		var parentL uint64
 		hasParent := nd.parent >= 0
 		if hasParent {
@@ -176,42 +219,13 @@ func mutationsOf(seed []byte) []edit {
 				if string(ins) == string(origL) {
 					continue
 				}
-				eds = append(eds, edit{off: nd.lOff, del: nd.vOff - nd.lOff, ins: ins, desc: fmt.Sprintf("len@%d(T=%#x L=%d)->%d/w%d", nd.lOff, nd.typ, nd.length, v, w)})
-			}
-		}
-		tset := map[uint64]bool{}
-		for j, o := range nodes {
-			if j == i {
-				continue
-			}
-			if o.parent == nd.parent || j == nd.parent || o.parent == i { // sibling, parent, child
-				tset[o.typ] = true
-			}
-		}
-		for _, t := range []uint64{0, 0xfa, 0xfb, 1000, 1001, 1 << 32, 1<<64 - 1} { // non-critical/critical unknowns, wide types
-			tset[t] = true
-		}
-		delete(tset, nd.typ)
-		var ts []uint64
-		for t := range tset {
-			ts = append(ts, t)
-		}
-		sort.Slice(ts, func(a, b int) bool { return ts[a] < ts[b] })
-		origT := seed[nd.tOff:nd.lOff]
-		for _, t := range ts {
-			w := minWidth(t)
-			eds = append(eds, edit{off: nd.tOff, del: len(origT), ins: encVar(t, w), desc: fmt.Sprintf("type@%d %#x->%#x", nd.tOff, nd.typ, t)})
-		}
-		// non-minimal encodings of the same type
-		for _, w := range []int{3, 5, 9} {
-			ins := encVar(nd.typ, w)
-			if string(ins) != string(origT) {
-				eds = append(eds, edit{off: nd.tOff, del: len(origT), ins: ins, desc: fmt.Sprintf("type@%d %#x widened/w%d", nd.tOff, nd.typ, w)})
+				les = append(les, lenEdit{v, edit{off: nd.lOff, del: nd.vOff - nd.lOff, ins: ins, desc: fmt.Sprintf("len@%d(T=%#x L=%d)->%d/w%d", nd.lOff, nd.typ, nd.length, v, w)}})
 			}
 		}
 	}
-	for k := 0; k < len(seed); k++ {
-		eds = append(eds, edit{off: k, del: len(seed) - k, desc: fmt.Sprintf("truncate@%d", k)})
+	sort.SliceStable(les, func(a, b int) bool { return les[a].v < les[b].v })
+	for _, le := range les {
+		eds = append(eds, le.e)
 	}
 	return eds
 }
